@@ -68,7 +68,7 @@ static double vh_integral_stub ();
 #endif
 
 #ifdef VH_CBMC
-#define VF_IN_I32_ARRAY(name, n) vh_i32 name[n]
+#define VF_IN_I32_ARRAY(name, n) vh_i32 name[n]; do { int i_; for (i_ = 0; i_ < (int) (n); i_++) name[i_] = nondet_vh_i32 (); } while (0)   /* element-wise: the trace then carries in_f[k] */
 #else
 #define VF_IN_I32_ARRAY(name, n)                                               \
     vh_i32 name[n];                                                            \
